@@ -14,6 +14,7 @@ Three things live here:
 from __future__ import annotations
 
 import asyncio
+import contextvars
 import random
 import re
 from dataclasses import dataclass, field
@@ -48,6 +49,11 @@ def make_store(kind: str) -> tuple[Any, str | None]:
 NOSTATE_TEXT = "handler crashed before persisting any state; cannot resume"
 
 
+# set in the task of an external request (send / cancel through the service) of a race case; inherited by the
+# fire-and-forget delivery task that the request spawns
+_REQUEST: contextvars.ContextVar = contextvars.ContextVar("verif_c15_request", default=None)
+
+
 class InjectedFault(Exception):
     """a transient store failure injected by the harness"""
 
@@ -69,6 +75,20 @@ class FaultStore:
         self.status_trace: list[tuple] = []  # (run_id, status) after every successful handler write
         self.early_terminal_events: list[tuple] = []  # terminal event appended while the row was not terminal
         self.by_run = False  # several handlers on one store: look rows up by the run id of the write
+        # (run_id, status before, status after, method, info) for every successful handler write that found a row
+        self.transitions: list[tuple] = []
+        # parking: a store whose answers take time.  `park_lookups`: a handler-id lookup made on behalf of an external
+        # request (the task carries _REQUEST) takes its snapshot and then waits; `park_unidle`: a status write that clears
+        # idle_since waits BEFORE it is executed (the read-modify-write itself stays atomic).  The scheduler releases them.
+        self.park_lookups = False
+        self.park_unidle = False
+        self.parked: list[dict] = []
+        self.park_seq = 0
+        # with `release_at_end` everything parked for a run is let through the moment a terminal status of that run has been
+        # stored (the late requests complete right after the end, before any timer), and nothing is parked for it afterwards
+        self.release_at_end = False
+        self.ended: set[str] = set()
+        self.late: list[dict] = []  # what was still parked when the terminal status of its run was stored
 
     def __getattr__(self, name: str) -> Any:
         return getattr(self._inner, name)
@@ -110,15 +130,60 @@ class FaultStore:
             return None
         return type("Row", (), {"run_id": r[0], "status": r[1]})()
 
-    def _note(self, run_id: str | None = None) -> None:
+    def _before(self, run_id: str | None = None) -> tuple | None:
+        row = self._row(run_id) if self.by_run else self._row()
+        return None if row is None else (row.run_id, row.status)
+
+    def _note(self, run_id: str | None = None, before: tuple | None = None, method: str = "?", info: Any = None) -> None:
         row = self._row(run_id) if self.by_run else self._row()
         if row is not None:
             self.status_trace.append((row.run_id, row.status))
+            if before is not None and before[0] == row.run_id:
+                self.transitions.append((row.run_id, before[1], row.status, method, info))
+
+    async def _park(self, kind: str, what: Any, run_ids: list) -> None:
+        if self.release_at_end and any(r in self.ended for r in run_ids):
+            return
+        req = _REQUEST.get()
+        self.park_seq += 1
+        item = {"id": self.park_seq, "kind": kind, "what": what, "ev": asyncio.Event(), "run_ids": list(run_ids),
+                "hold": bool(req and req.get("hold")) and kind == "lookup", "req": req and req.get("n"), "run": req and req.get("run")}
+        self.parked.append(item)
+        try:
+            await item["ev"].wait()
+        finally:
+            if item in self.parked:
+                self.parked.remove(item)
+
+    def release(self, item: dict) -> None:
+        if item in self.parked:
+            self.parked.remove(item)
+        item["ev"].set()
+
+    async def query(self, query: Any) -> Any:
+        rows = await self._inner.query(query)
+        if self.park_lookups and _REQUEST.get() is not None and getattr(query, "handler_id_in", None) is not None:
+            # a read that takes time: the answer is the state at the time of the read
+            snapshot = [r.model_copy() for r in rows]
+            await self._park("lookup", [getattr(r, "status", None) for r in snapshot], [getattr(r, "run_id", None) for r in snapshot])
+            return snapshot
+        return rows
 
     async def update_handler_status(self, run_id: str, **kw: Any) -> None:
-        self._gate("uhs", (run_id, kw.get("status"), "idle_since" in kw))
+        unidle = "idle_since" in kw and kw["idle_since"] is None
+        info = (run_id, kw.get("status"), "idle_since" in kw, unidle)
+        if self.park_unidle and unidle and _REQUEST.get() is not None:
+            await self._park("unidle", run_id, [run_id])
+        self._gate("uhs", info)
+        before = self._before(run_id)
         await self._inner.update_handler_status(run_id, **kw)
-        self._note(run_id)
+        self._note(run_id, before, "uhs", info)
+        if kw.get("status") in TERMINAL:
+            self.ended.add(run_id)
+            if self.release_at_end:
+                for it in [it for it in self.parked if run_id in it["run_ids"]]:
+                    self.late.append({"run_id": run_id, "queued": it["kind"], "of_request": it["req"], "held": it["hold"]})
+                    self.release(it)
 
     async def append_event(self, run_id: str, event: Any) -> None:
         types = list(getattr(event, "types", None) or []) + [event.type]
@@ -131,8 +196,9 @@ class FaultStore:
 
     async def update(self, handler: Any) -> None:
         self._gate("upd", (handler.run_id, handler.status))
+        before = self._before(handler.run_id)
         await self._inner.update(handler)
-        self._note(handler.run_id)
+        self._note(handler.run_id, before, "upd", (handler.run_id, handler.status))
 
 
 def canon_error(text: str | None) -> str:
@@ -623,6 +689,8 @@ class CaseResult:
     entered: list = field(default_factory=list)  # event type names that entered the server adapter for the run
     writes: list = field(default_factory=list)
     status_trace: list = field(default_factory=list)
+    transitions: list = field(default_factory=list)  # (run_id, status before, status after, method, info) per handler write
+    late_requests: list = field(default_factory=list)  # external requests that were still in flight when the run ended
     early_terminal_events: list = field(default_factory=list)
     events: list = field(default_factory=list)  # stored event types
     run_id: str | None = None
@@ -716,8 +784,11 @@ def run_case(case: dict) -> CaseResult:
     entered: list = []
     _ENTERED.append(entered)
     live._ACTIVE.append(run)
-    state: dict[str, Any] = {"st": None, "h": None, "done": False, "quiet": 0, "stuck": False}
+    state: dict[str, Any] = {"st": None, "h": None, "done": False, "quiet": 0, "stuck": False, "fs": None, "nreq": 0, "inflight": []}
     horizon = 300.0
+    race = bool(case.get("race"))
+    # virtual seconds between the end of the run and the completion of the requests that are still in flight (0: at once)
+    late_delay = float(case.get("late_delay") or 0)
 
     def hook_factory(loop: VLoop):
         def hook() -> bool:
@@ -728,6 +799,10 @@ def run_case(case: dict) -> CaseResult:
             for i, ext in enumerate(run.externals):
                 if ext.get("after_quiet", 0) <= state["quiet"] and ext["op"] in ("send", "cancel"):
                     options.append(("ext", i))
+            fs_ = state.get("fs")
+            if fs_ is not None:
+                # answers of the slow store that the scheduler may let through now (held lookups wait for the end of the run)
+                options += [("unpark", it) for it in fs_.parked if not it["hold"]]
             near = any((not h._cancelled) and h._when <= loop.time() + horizon for h in loop._scheduled)  # type: ignore[attr-defined]
             state["quiet"] += 1
             if not options:
@@ -746,25 +821,41 @@ def run_case(case: dict) -> CaseResult:
                 run.waiting.remove(arg)
                 run.gates[arg].set()
                 return True
+            if kind == "unpark":
+                fs_.release(arg)
+                return True
             ext = run.externals.pop(arg)
+            state["nreq"] += 1
+            req = {"n": state["nreq"], "op": ext["op"], "hold": ext.get("hold") == "end"} if race else None
             if ext["op"] == "cancel":
-                loop.create_task(_swallow(st.cancel("h1")))
+                loop.create_task(_swallow(st.cancel("h1"), req))
             else:
-                loop.create_task(_swallow(st.send("h1", ET.mk(ext["ty"], run.fresh(), ext.get("k")), step=ext.get("step"))))
+                loop.create_task(_swallow(st.send("h1", ET.mk(ext["ty"], run.fresh(), ext.get("k")), step=ext.get("step")), req))
             return True
 
         return hook
 
-    async def _swallow(coro: Any) -> None:
+    async def _swallow(coro: Any, req: dict | None = None) -> None:
+        if req is not None:
+            _REQUEST.set(req)
+            state["inflight"].append(req)
         try:
             await coro
         except Exception as e:
             res.notes.append(f"external op failed: {type(e).__name__}")
+        finally:
+            if req is not None and req in state["inflight"]:
+                state["inflight"].remove(req)
 
     async def main(loop: VLoop) -> None:
         base, dbp = make_store(case.get("store", "memory"))
         fs = FaultStore(base)
         fs.plan = _plan(case.get("fault"))
+        if race:
+            fs.park_lookups = True
+            fs.park_unidle = True
+            fs.release_at_end = not late_delay
+            state["fs"] = fs
         st = Stack.build(case.get("store", "memory"), idle_timeout=idle_timeout, persistence_backoff=backoff, store=fs, db_path=dbp)
         try:
             try:
@@ -821,6 +912,19 @@ def run_case(case: dict) -> CaseResult:
             state["done"] = True
             for _ in range(30):
                 await asyncio.sleep(0)
+            if race:
+                # the run has ended: the requests that are still in flight (their lookup was answered from the state
+                # before the end, or their delivery is queued behind the slow store) now complete, oldest first
+                res.late_requests = [{k: v for k, v in d.items() if k != "run_id"} for d in fs.late] + \
+                    [{"queued": it["kind"], "of_request": it["req"], "held": it["hold"]} for it in fs.parked]
+                if late_delay and fs.parked:
+                    await asyncio.sleep(late_delay)
+                for _round in range(200):
+                    if not fs.parked:
+                        break
+                    fs.release(fs.parked[0])
+                    for _ in range(30):
+                        await asyncio.sleep(0)
             res.record = _snap(await st.handler("h1"))
             res.events = [e.event.type for e in await st.events(hd.run_id)]
             # let every idle / release timer fire on the finished run
@@ -849,7 +953,10 @@ def run_case(case: dict) -> CaseResult:
             if res.record_restart is None:
                 res.writes = list(fs.writes)
             res.status_trace = list(fs.status_trace)
+            res.transitions = list(fs.transitions)
             res.early_terminal_events = list(fs.early_terminal_events)
+            for it in list(fs.parked):
+                fs.release(it)
             try:
                 if st.idle is not None:
                     for t in list(st.idle._background_tasks):
@@ -939,14 +1046,21 @@ def run_history(case: dict) -> list[CaseResult]:
     _ENTERED.append(entered)
     live._ACTIVE.append(master)
     active: list[int] = []  # indices of runs whose handler is being awaited
-    state: dict[str, Any] = {"st": None, "quiet": {}, "stuck": set()}
+    state: dict[str, Any] = {"st": None, "quiet": {}, "stuck": set(), "fs": None, "nreq": 0, "inflight": []}
     horizon = 300.0
+    race = bool(case.get("race"))
 
-    async def _swallow(i: int, coro: Any) -> None:
+    async def _swallow(i: int, coro: Any, req: dict | None = None) -> None:
+        if req is not None:
+            _REQUEST.set(req)
+            state["inflight"].append(req)
         try:
             await coro
         except Exception as e:
             results[i].notes.append(f"external op failed: {type(e).__name__}")
+        finally:
+            if req is not None and req in state["inflight"]:
+                state["inflight"].remove(req)
 
     def hook_factory(loop: VLoop):
         def hook() -> bool:
@@ -961,6 +1075,9 @@ def run_history(case: dict) -> list[CaseResult]:
                     if ext.get("after_quiet", 0) <= q and ext["op"] in ("send", "cancel"):
                         options.append(("ext", (i, j)))
                 state["quiet"][i] = q + 1
+            fs_ = state["fs"]
+            if fs_ is not None:
+                options += [("unpark", (-1, it)) for it in fs_.parked if not it["hold"]]
             near = any((not h._cancelled) and h._when <= loop.time() + horizon for h in loop._scheduled)  # type: ignore[attr-defined]
             if not options:
                 todo = [i for i in active if i not in state["stuck"]]
@@ -977,15 +1094,20 @@ def run_history(case: dict) -> list[CaseResult]:
             if kind == "time":
                 return False
             i = arg[0]
+            if kind == "unpark":
+                fs_.release(arg[1])
+                return True
             if kind == "gate":
                 runs[i].waiting.remove(arg[1])
                 runs[i].gates[arg[1]].set()
                 return True
             ext = runs[i].externals.pop(arg[1])
+            state["nreq"] += 1
+            req = {"n": state["nreq"], "op": ext["op"], "hold": ext.get("hold") == "end", "run": i} if race else None
             if ext["op"] == "cancel":
-                loop.create_task(_swallow(i, st.cancel(f"h{i}")))
+                loop.create_task(_swallow(i, st.cancel(f"h{i}"), req))
             else:
-                loop.create_task(_swallow(i, st.send(f"h{i}", ET.mk(ext["ty"], runs[i].fresh(), ext.get("k")), step=ext.get("step"))))
+                loop.create_task(_swallow(i, st.send(f"h{i}", ET.mk(ext["ty"], runs[i].fresh(), ext.get("k")), step=ext.get("step")), req))
             return True
 
         return hook
@@ -996,6 +1118,11 @@ def run_history(case: dict) -> list[CaseResult]:
         fs.by_run = True
         plan = HistoryPlan(items)
         fs.plan = {"upd": plan.upd, "uhs": plan.uhs}
+        if race:
+            fs.park_lookups = True
+            fs.park_unidle = True
+            fs.release_at_end = True
+            state["fs"] = fs
         st = Stack.build(case.get("store", "memory"), idle_timeout=idle_timeout, persistence_backoff=backoff, store=fs, db_path=dbp)
         try:
             for i, it in enumerate(items):
@@ -1051,6 +1178,17 @@ def run_history(case: dict) -> list[CaseResult]:
                         active.remove(i)
                 for _ in range(30):
                     await asyncio.sleep(0)
+                if race:
+                    # this run has ended: its requests that are still in flight complete now (the other runs go on)
+                    res.late_requests = [{k: v for k, v in d.items() if k != "run_id"} for d in fs.late if d["run_id"] == hd.run_id] + \
+                        [{"queued": it["kind"], "of_request": it["req"], "held": it["hold"]} for it in fs.parked if it["run"] == i]
+                    for _round in range(200):
+                        mine = [it for it in fs.parked if it["run"] == i]
+                        if not mine:
+                            break
+                        fs.release(mine[0])
+                        for _ in range(30):
+                            await asyncio.sleep(0)
                 res.record = _snap(await st.handler(f"h{i}"))
                 res.events = [e.event.type for e in await st.events(hd.run_id)]
 
@@ -1072,7 +1210,10 @@ def run_history(case: dict) -> list[CaseResult]:
                 rid = res.run_id
                 res.writes = [w for w in fs.writes if rid is not None and w[1][0] == rid]
                 res.status_trace = [t for t in fs.status_trace if t[0] == rid]
+                res.transitions = [t for t in fs.transitions if t[0] == rid]
                 res.early_terminal_events = [t for t in fs.early_terminal_events if t[0] == rid]
+            for it in list(fs.parked):
+                fs.release(it)
             try:
                 if st.idle is not None:
                     for t in list(st.idle._background_tasks):
@@ -1091,7 +1232,7 @@ def run_history(case: dict) -> list[CaseResult]:
     finally:
         live._ACTIVE.pop()
         _ENTERED.pop()
-    replay_case = {k: case.get(k) for k in ("store", "idle_timeout", "backoff", "seed", "history")}
+    replay_case = {k: case.get(k) for k in ("store", "idle_timeout", "backoff", "seed", "history") + (("race",) if race else ())}
     replay_case["actions"] = list(master.trace.actions)
     for res in results:
         res.entered = [(r, n) for (r, n, _e) in entered if r == res.run_id]
